@@ -171,6 +171,9 @@ Lemma vg_integrate_pospos a b : 0 < a -> a <= b -> b < INF ->
   vg_integrate (E1c c0) INF c lm lp a b = c * RInt e1f (lp * a) (lp * b).
 Proof.
   intros Ha Hab Hb. unfold vg_integrate. cbv beta iota zeta.
+  destruct (Req_dec a b) as [E | N].
+  { subst b. rewrite Reqb_same. rewrite (@RInt_point R_CompleteNormedModule). unfold zero; simpl. field. }
+  rewrite (Reqb_ne a b) by assumption.
   replace (Rleb a 0) with false by (symmetry; apply Rleb_false; lra). cbn [andb]. rewrite andb_false_r.
   rewrite !Reqb_ne by lra. rb. cbn [andb].
   rewrite E1c_diff by nra. reflexivity.
@@ -179,6 +182,9 @@ Lemma vg_integrate_negneg a b : a <= b -> b < 0 -> - INF < a -> 0 < INF ->
   vg_integrate (E1c c0) INF c lm lp a b = c * RInt e1f (- lm * b) (- lm * a).
 Proof.
   intros Hab Hb Ha HI. unfold vg_integrate. cbv beta iota zeta.
+  destruct (Req_dec a b) as [E | N].
+  { subst b. rewrite Reqb_same. rewrite (@RInt_point R_CompleteNormedModule). unfold zero; simpl. field. }
+  rewrite (Reqb_ne a b) by assumption.
   replace (Rleb 0 b) with false by (symmetry; apply Rleb_false; lra). rewrite !andb_false_r.
   rewrite !Reqb_ne by lra. rb. cbn [andb].
   rewrite E1c_diff by nra. reflexivity.
@@ -213,7 +219,7 @@ Qed.
 
 (* an interval of positive length whose closure contains 0 has infinite mass: the code returns +inf (the token INF) *)
 Lemma vg_integrate_infinite exp1 a b : a < b -> a <= 0 <= b -> vg_integrate exp1 INF c lm lp a b = INF.
-Proof. intros Hab [H1 H2]. unfold vg_integrate. cbv beta iota zeta. rb. reflexivity. Qed.
+Proof. intros Hab [H1 H2]. unfold vg_integrate. cbv beta iota zeta. rewrite (Reqb_ne a b) by lra. rb. reflexivity. Qed.
 
 (* mass over an interval on one side of zero (the integral over an interval touching or straddling 0 is infinite) *)
 Theorem vg_mass_is_RInt a b : a <= b -> (0 < a \/ b < 0) -> - INF < a -> b < INF -> 0 < INF ->
